@@ -33,6 +33,50 @@ def load_known():
         return json.load(f)
 
 
+def executable_lines(path):
+    """Line numbers that carry code, from the compiled code objects (docstrings and blank lines excluded)."""
+    import types
+
+    try:
+        with open(path) as f:
+            code = compile(f.read(), path, "exec")
+    except Exception:
+        return set()
+    out = set()
+    stack = [code]
+    while stack:
+        c = stack.pop()
+        for _s, _e, ln in c.co_lines():
+            if ln is not None and ln > 0:
+                out.add(ln)
+        for k in c.co_consts:
+            if isinstance(k, types.CodeType):
+                stack.append(k)
+    return out
+
+
+def anchored_line_coverage(pid, linecov, pure_dir):
+    """Which lines of the files the property is anchored in did this run's workload execute (pure build)."""
+    files = []
+    try:
+        with open(os.path.join(VERIF, "properties.jsonl")) as f:
+            for line in f:
+                p = json.loads(line)
+                if p["id"] == pid:
+                    files = p["anchors"]["files"]
+    except Exception:
+        return {}
+    out = {}
+    for rel in files:
+        base = os.path.basename(rel)
+        path = os.path.join(pure_dir, rel)
+        ex = executable_lines(path)
+        hit = set(linecov.get(base, ())) & ex if ex else set(linecov.get(base, ()))
+        miss = sorted(ex - hit)
+        out[rel] = {"executable_lines": len(ex), "reached": len(hit), "not_reached_sample": miss[:25]}
+    return out
+
+
 def run_worker(unit, scratch, timeout):
     uid = unit["uid"]
     up = os.path.join(scratch, "u%s.json" % uid)
@@ -209,6 +253,7 @@ def _main(args, pid, tier, seed, t0, mod, builds, scratch):
             results.extend(outs)
 
     # ---- aggregate
+    linecov = {}
     evaluations = 0
     nontrivial = set()
     counters = {}
@@ -251,6 +296,8 @@ def _main(args, pid, tier, seed, t0, mod, builds, scratch):
                 base.update(v["case"])
                 v["case"] = {"unit": base}
             violations.append(v)
+        for fn, lines in (res.get("linecov") or {}).items():
+            linecov.setdefault(fn, set()).update(lines)
         faults.extend("[%s] %s" % (u["build"], f) for f in res.get("faults", []))
         if len(samples) < 3:
             samples.extend(res.get("samples", [])[: 3 - len(samples)])
@@ -304,6 +351,7 @@ def _main(args, pid, tier, seed, t0, mod, builds, scratch):
     for msg in inconclusive:
         print("INCONCLUSIVE property=%s: %s" % (pid, msg))
 
+    anchored = anchored_line_coverage(pid, linecov, builds.pure) if linecov else {}
     wall = time.time() - t0
     ev = {
         "property_id": pid,
@@ -319,6 +367,7 @@ def _main(args, pid, tier, seed, t0, mod, builds, scratch):
                 "builds": per_build,
                 "observed": {k: counters[k] for k in sorted(counters)},
                 "units": len(units),
+                "anchored_source_lines_reached_pure_build": anchored,
             },
             **(mod.extra_coverage(counters, tier) if hasattr(mod, "extra_coverage") else {})
         ),
